@@ -860,7 +860,9 @@ class Gen:
                 types.extend(["f"] * nout)
             elif r < 0.72 and self.feat["loop"] and depth < 3:
                 ns = rng.choice([1, 1, 2])
-                body = self.gen_body(types, ["i", "b"] + ["f"] * ns, rng.randrange(1, 4), ns, depth + 1, in_func,
+                # (the loop's condition argument has type bool[1]: tagged "c" so that it is not picked where a
+                #  scalar bool is needed)
+                body = self.gen_body(types, ["i", "c"] + ["f"] * ns, rng.randrange(1, 4), ns, depth + 1, in_func,
                                      prefer_extra=True)
                 stmts.append(["loop", rng.randrange(0, 3), [self.pick(types, "f") for _ in range(ns)], body, 17])
                 types.extend(["f"] * ns)
